@@ -155,6 +155,13 @@ class State:
             if state_var_name not in cls.notify:
                 cls.notify[state_var_name] = {}
             cls.notify[state_var_name][queue] = var_names
+            if state_var_name not in cls.notify_var_last:
+                #
+                # remember the value at registration time, so a trigger expression evaluated for an
+                # earlier event doesn't see a later value of a variable that changes in the same burst
+                #
+                state = cls.hass.states.get(state_var_name)
+                cls.notify_var_last[state_var_name] = StateVal(state) if state else None
             added = True
         return added
 
